@@ -14,7 +14,7 @@ package ggql
 
 //@ func newCoerceErr
 //@   abstract formats a message with fmt.Errorf
-//@   ensures res != nil && !is(res, *Error) && !is(res, Errors)
+//@   ensures res != nil && !is(res, *Error) && !is(res, Errors) && aserr(res) == nil
 //@   assigns fresh
 
 //@ -- ------------------------------------------------------------------ pure accessors
@@ -52,6 +52,26 @@ package ggql
 //@           use skippedUnfold(sel.Directives(), vars, rangeindex+1)
 
 //@ -- BEGIN generated scalar contracts (gen_scalars.py)
+//@ -- conformance predicates of the statement (C04: conformsIn, C05: conformsOut), defined per type kind
+//@ spec conformsIn(v interface{}, t Type) bool
+//@ spec conformsOut(v interface{}, t Type) bool
+//@ axiom conformsInDef_intScalar(v interface{}, t Type): is(t, *intScalar) ==> (conformsIn(v, t) <==> (v == nil || (is(v, int32))))
+//@ axiom conformsOutDef_intScalar(v interface{}, t Type): is(t, *intScalar) ==> (conformsOut(v, t) <==> (v == nil || (is(v, int32))))
+//@ axiom conformsInDef_int64Scalar(v interface{}, t Type): is(t, *int64Scalar) ==> (conformsIn(v, t) <==> (v == nil || (is(v, int64))))
+//@ axiom conformsOutDef_int64Scalar(v interface{}, t Type): is(t, *int64Scalar) ==> (conformsOut(v, t) <==> (v == nil || (is(v, int64))))
+//@ axiom conformsInDef_floatScalar(v interface{}, t Type): is(t, *floatScalar) ==> (conformsIn(v, t) <==> (v == nil || (is(v, float32) && isfinite(as(v, float32)))))
+//@ axiom conformsOutDef_floatScalar(v interface{}, t Type): is(t, *floatScalar) ==> (conformsOut(v, t) <==> (v == nil || (is(v, float32) && isfinite(as(v, float32)))))
+//@ axiom conformsInDef_float64Scalar(v interface{}, t Type): is(t, *float64Scalar) ==> (conformsIn(v, t) <==> (v == nil || (is(v, float64) && isfinite(as(v, float64)))))
+//@ axiom conformsOutDef_float64Scalar(v interface{}, t Type): is(t, *float64Scalar) ==> (conformsOut(v, t) <==> (v == nil || (is(v, float64) && isfinite(as(v, float64)))))
+//@ axiom conformsInDef_stringScalar(v interface{}, t Type): is(t, *stringScalar) ==> (conformsIn(v, t) <==> (v == nil || (is(v, string))))
+//@ axiom conformsOutDef_stringScalar(v interface{}, t Type): is(t, *stringScalar) ==> (conformsOut(v, t) <==> (v == nil || (is(v, string))))
+//@ axiom conformsInDef_idScalar(v interface{}, t Type): is(t, *idScalar) ==> (conformsIn(v, t) <==> (v == nil || (is(v, string))))
+//@ axiom conformsOutDef_idScalar(v interface{}, t Type): is(t, *idScalar) ==> (conformsOut(v, t) <==> (v == nil || (is(v, string))))
+//@ axiom conformsInDef_booleanScalar(v interface{}, t Type): is(t, *booleanScalar) ==> (conformsIn(v, t) <==> (v == nil || (is(v, bool))))
+//@ axiom conformsOutDef_booleanScalar(v interface{}, t Type): is(t, *booleanScalar) ==> (conformsOut(v, t) <==> (v == nil || (is(v, bool))))
+//@ axiom conformsInDef_timeScalar(v interface{}, t Type): is(t, *timeScalar) ==> (conformsIn(v, t) <==> (v == nil || (is(v, time.Time))))
+//@ axiom conformsOutDef_timeScalar(v interface{}, t Type): is(t, *timeScalar) ==> (conformsOut(v, t) <==> (v == nil || (is(v, string))))
+
 //@ func (*intScalar).CoerceIn
 //@   props C04
 //@   check panic {C03}
@@ -76,6 +96,9 @@ package ggql
 //@   ensures[Symbol] is(v, Symbol) && err == nil ==> is(res, int32)
 //@   ensures[time_Time] is(v, time.Time) && err == nil ==> is(res, int32)
 //@   ensures[conforms] err == nil ==> res == nil || (is(res, int32))
+//@   ensures[nonnil] err == nil && v != nil ==> res != nil
+//@   ensures[conforms-spec] err == nil ==> conformsIn(res, box(recv))
+//@   use conformsInDef_intScalar(res, box(recv))
 
 //@ func (*intScalar).CoerceOut
 //@   props C05
@@ -101,6 +124,9 @@ package ggql
 //@   ensures[Symbol] is(v, Symbol) && err == nil ==> is(res, int32)
 //@   ensures[time_Time] is(v, time.Time) && err == nil ==> is(res, int32)
 //@   ensures[conforms] err == nil ==> res == nil || (is(res, int32))
+//@   ensures[nonnil] err == nil && v != nil ==> res != nil
+//@   ensures[conforms-spec] err == nil ==> conformsOut(res, box(recv))
+//@   use conformsOutDef_intScalar(res, box(recv))
 //@   ensures[err-null] err != nil ==> res == nil
 
 //@ func (*int64Scalar).CoerceIn
@@ -127,6 +153,9 @@ package ggql
 //@   ensures[Symbol] is(v, Symbol) && err == nil ==> is(res, int64)
 //@   ensures[time_Time] is(v, time.Time) && err == nil ==> is(res, int64)
 //@   ensures[conforms] err == nil ==> res == nil || (is(res, int64))
+//@   ensures[nonnil] err == nil && v != nil ==> res != nil
+//@   ensures[conforms-spec] err == nil ==> conformsIn(res, box(recv))
+//@   use conformsInDef_int64Scalar(res, box(recv))
 
 //@ func (*int64Scalar).CoerceOut
 //@   props C05
@@ -152,6 +181,9 @@ package ggql
 //@   ensures[Symbol] is(v, Symbol) && err == nil ==> is(res, int64)
 //@   ensures[time_Time] is(v, time.Time) && err == nil ==> is(res, int64)
 //@   ensures[conforms] err == nil ==> res == nil || (is(res, int64))
+//@   ensures[nonnil] err == nil && v != nil ==> res != nil
+//@   ensures[conforms-spec] err == nil ==> conformsOut(res, box(recv))
+//@   use conformsOutDef_int64Scalar(res, box(recv))
 //@   ensures[err-null] err != nil ==> res == nil
 
 //@ func (*floatScalar).CoerceIn
@@ -176,6 +208,9 @@ package ggql
 //@   ensures[Symbol] is(v, Symbol) && err == nil ==> is(res, float32) && isfinite(as(res, float32))
 //@   ensures[time_Time] is(v, time.Time) && err == nil ==> is(res, float32) && isfinite(as(res, float32))
 //@   ensures[conforms] err == nil ==> res == nil || (is(res, float32) && isfinite(as(res, float32)))
+//@   ensures[nonnil] err == nil && v != nil ==> res != nil
+//@   ensures[conforms-spec] err == nil ==> conformsIn(res, box(recv))
+//@   use conformsInDef_floatScalar(res, box(recv))
 
 //@ func (*floatScalar).CoerceOut
 //@   props C05
@@ -199,6 +234,9 @@ package ggql
 //@   ensures[Symbol] is(v, Symbol) && err == nil ==> is(res, float32) && isfinite(as(res, float32))
 //@   ensures[time_Time] is(v, time.Time) && err == nil ==> is(res, float32) && isfinite(as(res, float32))
 //@   ensures[conforms] err == nil ==> res == nil || (is(res, float32) && isfinite(as(res, float32)))
+//@   ensures[nonnil] err == nil && v != nil ==> res != nil
+//@   ensures[conforms-spec] err == nil ==> conformsOut(res, box(recv))
+//@   use conformsOutDef_floatScalar(res, box(recv))
 //@   ensures[err-null] err != nil ==> res == nil
 
 //@ func (*float64Scalar).CoerceIn
@@ -223,6 +261,9 @@ package ggql
 //@   ensures[Symbol] is(v, Symbol) && err == nil ==> is(res, float64) && isfinite(as(res, float64))
 //@   ensures[time_Time] is(v, time.Time) && err == nil ==> is(res, float64) && isfinite(as(res, float64))
 //@   ensures[conforms] err == nil ==> res == nil || (is(res, float64) && isfinite(as(res, float64)))
+//@   ensures[nonnil] err == nil && v != nil ==> res != nil
+//@   ensures[conforms-spec] err == nil ==> conformsIn(res, box(recv))
+//@   use conformsInDef_float64Scalar(res, box(recv))
 
 //@ func (*float64Scalar).CoerceOut
 //@   props C05
@@ -246,6 +287,9 @@ package ggql
 //@   ensures[Symbol] is(v, Symbol) && err == nil ==> is(res, float64) && isfinite(as(res, float64))
 //@   ensures[time_Time] is(v, time.Time) && err == nil ==> is(res, float64) && isfinite(as(res, float64))
 //@   ensures[conforms] err == nil ==> res == nil || (is(res, float64) && isfinite(as(res, float64)))
+//@   ensures[nonnil] err == nil && v != nil ==> res != nil
+//@   ensures[conforms-spec] err == nil ==> conformsOut(res, box(recv))
+//@   use conformsOutDef_float64Scalar(res, box(recv))
 //@   ensures[err-null] err != nil ==> res == nil
 
 //@ func (*stringScalar).CoerceIn
@@ -270,6 +314,9 @@ package ggql
 //@   ensures[Symbol] is(v, Symbol) && err == nil ==> is(res, string)
 //@   ensures[time_Time] is(v, time.Time) && err == nil ==> is(res, string)
 //@   ensures[conforms] err == nil ==> res == nil || (is(res, string))
+//@   ensures[nonnil] err == nil && v != nil ==> res != nil
+//@   ensures[conforms-spec] err == nil ==> conformsIn(res, box(recv))
+//@   use conformsInDef_stringScalar(res, box(recv))
 
 //@ func (*stringScalar).CoerceOut
 //@   props C05
@@ -293,6 +340,9 @@ package ggql
 //@   ensures[Symbol] is(v, Symbol) && err == nil ==> is(res, string)
 //@   ensures[time_Time] is(v, time.Time) && err == nil ==> is(res, string)
 //@   ensures[conforms] err == nil ==> res == nil || (is(res, string))
+//@   ensures[nonnil] err == nil && v != nil ==> res != nil
+//@   ensures[conforms-spec] err == nil ==> conformsOut(res, box(recv))
+//@   use conformsOutDef_stringScalar(res, box(recv))
 //@   ensures[err-null] err != nil ==> res == nil
 
 //@ func (*idScalar).CoerceIn
@@ -317,6 +367,9 @@ package ggql
 //@   ensures[Symbol] is(v, Symbol) && err == nil ==> is(res, string)
 //@   ensures[time_Time] is(v, time.Time) && err == nil ==> is(res, string)
 //@   ensures[conforms] err == nil ==> res == nil || (is(res, string))
+//@   ensures[nonnil] err == nil && v != nil ==> res != nil
+//@   ensures[conforms-spec] err == nil ==> conformsIn(res, box(recv))
+//@   use conformsInDef_idScalar(res, box(recv))
 
 //@ func (*idScalar).CoerceOut
 //@   props C05
@@ -340,6 +393,9 @@ package ggql
 //@   ensures[Symbol] is(v, Symbol) && err == nil ==> is(res, string)
 //@   ensures[time_Time] is(v, time.Time) && err == nil ==> is(res, string)
 //@   ensures[conforms] err == nil ==> res == nil || (is(res, string))
+//@   ensures[nonnil] err == nil && v != nil ==> res != nil
+//@   ensures[conforms-spec] err == nil ==> conformsOut(res, box(recv))
+//@   use conformsOutDef_idScalar(res, box(recv))
 //@   ensures[err-null] err != nil ==> res == nil
 
 //@ func (*booleanScalar).CoerceIn
@@ -364,6 +420,9 @@ package ggql
 //@   ensures[Symbol] is(v, Symbol) && err == nil ==> is(res, bool)
 //@   ensures[time_Time] is(v, time.Time) && err == nil ==> is(res, bool)
 //@   ensures[conforms] err == nil ==> res == nil || (is(res, bool))
+//@   ensures[nonnil] err == nil && v != nil ==> res != nil
+//@   ensures[conforms-spec] err == nil ==> conformsIn(res, box(recv))
+//@   use conformsInDef_booleanScalar(res, box(recv))
 
 //@ func (*booleanScalar).CoerceOut
 //@   props C05
@@ -387,6 +446,9 @@ package ggql
 //@   ensures[Symbol] is(v, Symbol) && err == nil ==> is(res, bool)
 //@   ensures[time_Time] is(v, time.Time) && err == nil ==> is(res, bool)
 //@   ensures[conforms] err == nil ==> res == nil || (is(res, bool))
+//@   ensures[nonnil] err == nil && v != nil ==> res != nil
+//@   ensures[conforms-spec] err == nil ==> conformsOut(res, box(recv))
+//@   use conformsOutDef_booleanScalar(res, box(recv))
 //@   ensures[err-null] err != nil ==> res == nil
 
 //@ func (*timeScalar).CoerceIn
@@ -411,6 +473,9 @@ package ggql
 //@   ensures[Symbol] is(v, Symbol) && err == nil ==> is(res, time.Time)
 //@   ensures[time_Time] is(v, time.Time) && err == nil ==> is(res, time.Time)
 //@   ensures[conforms] err == nil ==> res == nil || (is(res, time.Time))
+//@   ensures[nonnil] err == nil && v != nil ==> res != nil
+//@   ensures[conforms-spec] err == nil ==> conformsIn(res, box(recv))
+//@   use conformsInDef_timeScalar(res, box(recv))
 
 //@ func (*timeScalar).CoerceOut
 //@   props C05
@@ -434,6 +499,9 @@ package ggql
 //@   ensures[Symbol] is(v, Symbol) && err == nil ==> is(res, string)
 //@   ensures[time_Time] is(v, time.Time) && err == nil ==> is(res, string)
 //@   ensures[conforms] err == nil ==> res == nil || (is(res, string))
+//@   ensures[nonnil] err == nil && v != nil ==> res != nil
+//@   ensures[conforms-spec] err == nil ==> conformsOut(res, box(recv))
+//@   use conformsOutDef_timeScalar(res, box(recv))
 //@   ensures[err-null] err != nil ==> res == nil
 
 //@ -- END generated scalar contracts
@@ -450,6 +518,9 @@ package ggql
 //@ fieldinv FragRef.Fragment: v != nil
 //@ fieldinv VarDef.Type: v != nil
 //@ fieldinv Root.uuSchemaType: v != nil
+//@ fieldinv Enum.values: true
+//@ fieldinv List.Base: v != nil
+//@ fieldinv NonNull.Base: v != nil
 //@ typeinv Type: v == nil || ptrval(v) != 0
 
 //@ -- ------------------------------------------------------------------ C06 error paths
@@ -460,7 +531,7 @@ package ggql
 //@ spec errsIncBody(ea []error, lo int, hi int) bool = (forall i int {ea[i]} :: 0 <= i && i < len(ea) ==> ea[i] != nil && (aserr(ea[i]) != nil ==> lo < addr(aserr(ea[i])) && addr(aserr(ea[i])) <= hi)) && (forall i int, j int {ea[i], ea[j]} :: 0 <= i && i < j && j < len(ea) && aserr(ea[i]) != nil && aserr(ea[j]) != nil ==> addr(aserr(ea[i])) < addr(aserr(ea[j])))
 //@ autoaxiom errsIncUnfold(ea []error, lo int, hi int) {errsInc(ea, lo, hi)}: errsInc(ea, lo, hi) ==> errsIncBody(ea, lo, hi)
 //@ foldaxiom errsIncFold(ea []error, lo int, hi int) {errsInc(ea, lo, hi)}: errsIncBody(ea, lo, hi) ==> errsInc(ea, lo, hi)
-//@ spec errsFresh(ea []error) bool = errsInc(ea, old(#alloc), #alloc)
+//@ spec errsFresh(ea []error) bool = errsInc(ea, old(#alloc), #alloc) && (ea == nil || fresh(ea))
 //@ spec concatOf(a []error, b []error, c []error) bool = len(c) == len(a) + len(b) && (forall k int {c[k]} :: 0 <= k && k < len(c) ==> c[k] == ite(k < len(a), a[k], b[k - len(a)]))
 //@ autolemma errsIncWeaken(a []error, lo int, hi int, lo2 int, hi2 int) {errsInc(a, lo, hi), errsInc(a, lo2, hi2)}: errsInc(a, lo, hi) && lo2 <= lo && hi <= hi2 ==> errsInc(a, lo2, hi2)
 //@ autolemma errsIncEmpty(a []error, lo int, hi int) {errsInc(a, lo, hi)}: len(a) == 0 ==> errsInc(a, lo, hi)
@@ -561,7 +632,7 @@ package ggql
 //@   requires root != nil && sel != nil && result != nil && t != nil
 //@   requires !skippedSel(box(sel), vars)
 //@   ensures[not-applicable]{C08} sel.Condition != nil && sel.Condition != t ==> len(ea) == 0 && #res == old(#res) && (forall k string :: (has(result, k) <==> old(has(result, k))) && result[k] == old(result[k]))
-//@   assigns fresh, result, H_Field.ConType, H_Field.Args, H_Object.meta, held, #res
+//@   assigns fresh, result, H_Field.ConType, H_Object.meta, held, #res
 
 //@ func (*Root).resolveFragRef
 //@   requires ptrval(t) != 0
@@ -572,7 +643,7 @@ package ggql
 //@   requires root != nil && sel != nil && result != nil && t != nil
 //@   requires !skippedSel(box(sel), vars)
 //@   ensures[not-applicable]{C08} sel.Fragment.Condition != nil && sel.Fragment.Condition != t ==> len(ea) == 0 && #res == old(#res) && (forall k string :: (has(result, k) <==> old(has(result, k))) && result[k] == old(result[k]))
-//@   assigns fresh, result, H_Field.ConType, H_Field.Args, H_Object.meta, held, #res
+//@   assigns fresh, result, H_Field.ConType, H_Object.meta, held, #res
 
 //@ func (*Root).resolveSels
 //@   requires ptrval(t) != 0
@@ -582,7 +653,7 @@ package ggql
 //@   check frame {C11}
 //@   requires root != nil && result != nil
 //@   requires t != nil
-//@   assigns fresh, result, H_Field.ConType, H_Field.Args, H_Object.meta, held, #res
+//@   assigns fresh, result, H_Field.ConType, H_Object.meta, held, #res
 //@   loop 0: invariant[bounds] 0 <= rangeindex+1 && rangeindex+1 <= len(sels)
 //@           invariant[errs] errsFresh(ea)
 //@           decreases len(sels) - rangeindex
@@ -646,7 +717,9 @@ package ggql
 //@           decreases len(f.Args) - rangeindex
 
 //@ interface InCoercer.CoerceIn
-//@   ensures[err-fresh] aserr(err) == nil
+//@   ensures[err-fresh] aserr(err) != nil ==> fresh(aserr(err))
+//@   ensures[conforms] err == nil ==> conformsIn(res, recv)
+//@   ensures[nonnil] err == nil && v != nil ==> res != nil
 //@   assigns fresh
 
 //@ spec nonNullArg(fd *FieldDef, k string) bool = fd != nil && fd.args.dict != nil && has(fd.args.dict, k) && is(fd.args.dict[k].Type, *NonNull)
@@ -655,11 +728,38 @@ package ggql
 //@ autoaxiom suppliedBase(args []*ArgValue, k string) {suppliedUpTo(args, k, 0)}: !suppliedUpTo(args, k, 0)
 //@ axiom suppliedStep(args []*ArgValue, n int): n >= 0 ==> (forall k string {suppliedUpTo(args, k, n+1)} :: suppliedUpTo(args, k, n+1) <==> (suppliedUpTo(args, k, n) || (args[n] != nil && args[n].Arg == k && args[n].Value != nil)))
 
-//@ func (*Root).replaceArgVars
-//@   abstract (not yet checked against the body)
-//@   ensures errsFresh(ea)
-//@   ensures #res == old(#res)
+//@ func BaseType
+//@   props C04
+//@   check panic {C03}
+//@   requires t != nil ==> ptrval(t) != 0
+//@   ensures[not-wrapper] !is(t, *NonNull) && !is(t, *List) ==> res == t
+//@   ensures[nil] t == nil ==> res == nil
+//@   ensures[valid] res != nil ==> ptrval(res) != 0
+//@   assigns nothing
+
+//@ func (*Input).CoerceIn
+//@   abstract (input-object coercion is reflect-dominated; not yet under contract)
+//@   results res, err
+//@   ensures aserr(err) != nil ==> fresh(aserr(err))
 //@   assigns fresh
+
+//@ func (*Root).replaceArgVars
+//@   props C04
+//@   check panic {C03}
+//@   check frame {C11}
+//@   requires root != nil
+//@   requires at != nil ==> ptrval(at) != 0
+//@   ensures[errs-fresh]{C06} errsFresh(ea)
+//@   ensures[no-resolver]{C04} #res == old(#res)
+//@   ensures[var-conforms]{C04} is(v, Var) && at != nil && is(at, InCoercer) && len(ea) == 0 ==> conformsIn(val, at)
+//@   ensures[scalar-literal-conforms]{C04} !is(v, Var) && !is(v, map[string]interface{}) && !is(v, []interface{}) && !is(v, Symbol) && at != nil && is(at, InCoercer) && len(ea) == 0 ==> conformsIn(val, at)
+//@   ensures[symbol-enum-conforms]{C04} is(v, Symbol) && is(at, *Enum) && len(ea) == 0 ==> conformsIn(val, at)
+//@   use conformsInDef_Enum(val, at)
+//@   assigns fresh
+//@   loop 0: invariant[errs] errsFresh(ea)
+//@   loop 1: invariant[bounds] rangeindex+1 <= len(tv)
+//@           invariant[errs] errsFresh(ea)
+//@           decreases len(tv) - rangeindex
 
 //@ func (*Root).formArgs
 //@   props C10
@@ -695,11 +795,14 @@ package ggql
 //@   requires f != nil && err != nil
 //@   ensures forall lo int {errsInc(ea, lo, old(#alloc))} :: errsInc(ea, lo, old(#alloc)) && lo <= old(#alloc) ==> errsInc(res, lo, #alloc)
 //@   ensures len(res) > len(ea)
+//@   ensures fresh(res)
 //@   ensures #res == old(#res)
 //@   assigns fresh
 
 //@ interface OutCoercer.CoerceOut
 //@   ensures[err-null] err != nil ==> res == nil
+//@   ensures[conforms] err == nil ==> conformsOut(res, recv)
+//@   ensures[nonnil] err == nil && v != nil ==> res != nil
 //@   assigns fresh
 
 //@ func (*Object).metaCheck
@@ -717,8 +820,9 @@ package ggql
 //@   requires t != nil ==> ptrval(t) != 0
 //@   ensures[errs-fresh]{C06} errsFresh(ea)
 //@   ensures[null-depth]{C01} (depth <= 0 || isnilv(obj)) ==> result == obj && len(ea) == 0 && #res == old(#res)
+//@   ensures[leaf-conforms]{C05} depth > 0 && !isnilv(obj) && !is(t, *List) && !is(t, *Object) && !is(t, *Schema) && !is(t, *Interface) && !is(t, *uuSchema) && !is(t, *NonNull) && !is(t, *Union) && is(t, OutCoercer) && len(ea) == 0 ==> conformsOut(result, t)
 //@   ensures[leaf-error-null]{C05} depth > 0 && !isnilv(obj) && !is(t, *List) && !is(t, *Object) && !is(t, *Schema) && !is(t, *Interface) && !is(t, *uuSchema) && !is(t, *NonNull) && !is(t, *Union) && len(ea) > 0 ==> result == nil
-//@   assigns fresh, H_Field.ConType, H_Field.Args, H_Object.meta, held, #res
+//@   assigns fresh, H_Field.ConType, H_Object.meta, held, #res
 //@   loop 0: invariant[bounds] 0 <= rangeindex+1 && rangeindex+1 <= len(tt.Members)
 //@           decreases len(tt.Members) - rangeindex
 
@@ -735,7 +839,7 @@ package ggql
 //@   ensures[errs-fresh]{C06} errsFresh(ea)
 //@   ensures[iface-list-len]{C01} is(obj, []interface{}) ==> is(result, []interface{}) && len(as(result, []interface{})) == len(as(obj, []interface{}))
 //@   ensures[listresolver-len]{C01} is(obj, ListResolver) && as(obj, ListResolver).Len() >= 0 ==> is(result, []interface{}) && len(as(result, []interface{})) == as(obj, ListResolver).Len()
-//@   assigns fresh, H_Field.ConType, H_Field.Args, H_Object.meta, held, #res
+//@   assigns fresh, H_Field.ConType, H_Object.meta, held, #res
 //@   loop 0: invariant[bounds] 0 <= i && (i <= cnt || i == 0)
 //@           invariant[len] len(rlist) == i
 //@           invariant[errs] errsFresh(ea)
@@ -773,7 +877,7 @@ package ggql
 //@   ensures[key-frame]{C01} forall k string :: k != fkey(field) ==> (has(result, k) <==> old(has(result, k))) && result[k] == old(result[k])
 //@   ensures[typename]{C01} old(field.ConType) != nil && field.Name == "__typename" ==> has(result, fkey(field)) && result[fkey(field)] == box(t.Name()) && len(ea) == 0 && #res == old(#res)
 //@   ensures[undefined-field]{C10} old(field.ConType) != nil && !isMetaName(field.Name) && old(fdOf(t, field.Name)) == nil ==> len(ea) > 0 && #res == old(#res) && (has(result, fkey(field)) <==> old(has(result, fkey(field)))) && result[fkey(field)] == old(result[fkey(field)])
-//@   assigns fresh, result, H_Field.ConType, H_Field.Args, H_Object.meta, held, #res
+//@   assigns fresh, result, H_Field.ConType, H_Object.meta, held, #res
 
 //@ func (*Root).resolveFieldSels
 //@   requires ptrval(t) != 0
@@ -784,7 +888,7 @@ package ggql
 //@   requires t != nil
 //@   ensures[fresh-map]{C01} is(result, map[string]interface{}) && fresh(as(result, map[string]interface{}))
 //@   ensures[errs-fresh]{C06} errsFresh(ea)
-//@   assigns fresh, H_Field.ConType, H_Field.Args, H_Object.meta, held, #res
+//@   assigns fresh, H_Field.ConType, H_Object.meta, held, #res
 
 //@ -- ------------------------------------------------------------------ ResolveExecutable (C01 operation choice, C04 variables, C07 shape)
 //@ fieldinv Executable.Ops: v != nil
@@ -798,6 +902,8 @@ package ggql
 //@ func (*Root).ResolveExecutable
 //@   props C01
 //@   check panic {C03}
+//@   check frame {C11}
+//@   assigns fresh, root.subscriptions, H_Field.ConType, H_Object.meta, held, #res
 //@   requires root != nil && exe != nil
 //@   requires root.schema != nil
 //@   ensures[unknown-name]{C01} opName != "" && old(exe.Ops[opName]) == nil ==> err != nil && result == nil && #res == old(#res)
@@ -806,4 +912,86 @@ package ggql
 //@   use skippedUnfold(addrof(field).Dirs, opVars, 0)
 //@   loop 0: invariant[bounds] 0 <= rangeindex+1 && rangeindex+1 <= len(op.Variables)
 //@           invariant[no-res] #res == old(#res)
+//@           invariant[no-err] err == nil
 //@           decreases len(op.Variables) - rangeindex
+
+
+//@ -- ------------------------------------------------------------------ C04/C05 wrappers and enums
+//@ axiom conformsInDef_NonNull(v interface{}, t Type): is(t, *NonNull) ==> (conformsIn(v, t) <==> (v != nil && conformsIn(v, as(t, *NonNull).Base)))
+//@ axiom conformsOutDef_NonNull(v interface{}, t Type): is(t, *NonNull) ==> (conformsOut(v, t) <==> (v != nil && conformsOut(v, as(t, *NonNull).Base)))
+//@ axiom conformsInDef_Enum(v interface{}, t Type): is(t, *Enum) ==> (conformsIn(v, t) <==> (v == nil || (is(v, Symbol) && as(t, *Enum).values.dict != nil && has(as(t, *Enum).values.dict, as(v, Symbol)))))
+//@ axiom conformsOutDef_Enum(v interface{}, t Type): is(t, *Enum) ==> (conformsOut(v, t) <==> (v == nil || (is(v, string) && as(t, *Enum).values.dict != nil && has(as(t, *Enum).values.dict, as(v, string)))))
+
+//@ func (*NonNull).CoerceIn
+//@   props C04
+//@   check panic {C03}
+//@   requires t != nil
+//@   results res, err
+//@   ensures[conforms-spec] err == nil ==> conformsIn(res, box(t))
+//@   ensures[nonnil] err == nil ==> res != nil
+//@   use conformsInDef_NonNull(res, box(t))
+//@   assigns fresh
+
+//@ func (*NonNull).CoerceOut
+//@   props C05
+//@   check panic {C03}
+//@   requires t != nil
+//@   results res, err
+//@   ensures[conforms-spec] err == nil ==> conformsOut(res, box(t))
+//@   ensures[err-null] err != nil ==> res == nil
+//@   use conformsOutDef_NonNull(res, box(t))
+//@   assigns fresh
+
+//@ func (*Enum).CoerceIn
+//@   props C04
+//@   check panic {C03}
+//@   requires t != nil && !Relaxed
+//@   results res, err
+//@   ensures[nil] v == nil ==> res == nil && err == nil
+//@   ensures[conforms-spec] err == nil ==> conformsIn(res, box(t))
+//@   ensures[same] err == nil && v != nil ==> res == v
+//@   use conformsInDef_Enum(res, box(t))
+//@   assigns fresh
+
+//@ func (*Enum).CoerceOut
+//@   props C05
+//@   check panic {C03}
+//@   requires t != nil
+//@   results res, err
+//@   ensures[nil] v == nil ==> res == nil && err == nil
+//@   ensures[conforms-spec] err == nil ==> conformsOut(res, box(t))
+//@   ensures[err-null] err != nil ==> res == nil
+//@   use conformsOutDef_Enum(res, box(t))
+//@   assigns fresh
+
+//@ axiom conformsInDef_List(v interface{}, t Type): is(t, *List) ==> (conformsIn(v, t) <==> (v == nil || (is(v, []interface{}) && (forall i int {as(v, []interface{})[i]} :: 0 <= i && i < len(as(v, []interface{})) ==> conformsIn(as(v, []interface{})[i], as(t, *List).Base)))))
+//@ axiom conformsOutDef_List(v interface{}, t Type): is(t, *List) ==> (conformsOut(v, t) <==> (v == nil || (is(v, []interface{}) && (forall i int {as(v, []interface{})[i]} :: 0 <= i && i < len(as(v, []interface{})) ==> conformsOut(as(v, []interface{})[i], as(t, *List).Base)))))
+
+//@ func (*List).CoerceIn
+//@   props C04
+//@   check panic {C03}
+//@   check frame {C11}
+//@   requires t != nil
+//@   results res, err
+//@   ensures[nil] v == nil ==> res == nil && err == nil
+//@   ensures[conforms-spec]{C04} err == nil ==> conformsIn(res, box(t))
+//@   ensures[err-fresh] aserr(err) != nil ==> fresh(aserr(err))
+//@   use conformsInDef_List(res, box(t))
+//@   assigns fresh
+//@   loop 0: invariant[bounds] -1 <= i && i < len(list)
+//@           invariant[done]{C04} forall j int {list[j]} :: i < j && j < len(list) ==> conformsIn(list[j], t.Base)
+//@           decreases i + 1
+
+//@ func (*List).CoerceOut
+//@   props C05
+//@   check panic {C03}
+//@   requires t != nil
+//@   results res, err
+//@   ensures[nil] v == nil ==> res == nil && err == nil
+//@   ensures[conforms-spec]{C05} err == nil ==> conformsOut(res, box(t))
+//@   ensures[err-null] err != nil ==> res == nil
+//@   use conformsOutDef_List(res, box(t))
+//@   assigns fresh
+//@   loop 0: invariant[bounds] -1 <= i && i < len(list)
+//@           invariant[done]{C05} forall j int {list[j]} :: i < j && j < len(list) ==> conformsOut(list[j], t.Base)
+//@           decreases i + 1
